@@ -23,12 +23,18 @@ RULE = ('random cases per helper: mix_and_split, adjust_moisture_content, mix_an
         'Oracle audit: a raise is a refusal only for the documented exception type AND where the harness sees from the inputs that it is warranted (moisture: its own need / have / liquid moisture; '
         'partition: its own Rachford-Rice flows outside [0, feed] under strict=True, never under strict=False; vle: x / y outside the lever rule on the bubble / dew point, a duty cooling the feed below 250 K; '
         'lle and vle (V,P) / (T,P) / (V,T): never); phase_split is compared with the rows the harness put in; y_i = K_i x_i over the whole outlets for every listed chemical wherever the Rachford-Rice reference has an interior root. '
+        'Call histories (in addition to the single-call cases): the same two outlet objects handed to 2-4 calls of mix_and_split / mix_and_split_with_moisture_content / phase_split / partition / vle in any order, '
+        'the outlets starting fresh, as liquid / gas streams holding content or as MultiStreams holding content in several phases; inlets liquid / gas / solid streams, MultiStreams one of whose phases may hold nothing, '
+        'streams flashed with Stream.vle (subcooled / superheated: an empty phase) and the outlets themselves (top and / or bottom among the inlets); phase_split of one living feed object rewritten between calls '
+        '(through the indexer, after empty(), copy_like, its phase proxies, after a change of its phases and back); every call judged on its own against what the harness put in. '
         'non-trivial = >=2 chemicals flowing and both outlets non-empty (or a non-degenerate target); distinct = hash of the case')
 MIN_NONTRIVIAL = {'quick': 400, 'thorough': 15000}
 ASSUMPTIONS = ['the vle / lle wrappers are driven with water/alcohol(/octanol) feeds inside the model ranges; their equilibrium quality is C04/C15, only the routing and balance are judged here',
                'moisture adjustment is judged only when the permeate holds enough water (otherwise the documented InfeasibleRegion is expected); whether it does is decided by the harness from the inputs (moisture needed for the target vs liquid moisture of the permeate; for mix_and_split_with_moisture_content with vapour among the inlets the phase rows come from a separate mix_and_split run on copies)',
                'whether an x / y specification of the vle wrapper is attainable is decided with the bubble / dew point of the specified composition (Stream.bubble_point_at_P / dew_point_at_P etc., judged by C04) and the lever rule; a refused duty must cool the feed below 250 K by an upper bound of its heat capacity',
                'the whole-outlet K check allows the 1e-6 resolution of the phase fraction (bracket width of the library\'s solver) carried through the harness\' own Rachford-Rice model',
+               'call histories: partition is not called while an outlet is a MultiStream (it writes through .mol / .imol[IDs] of single-phase outlets); an outlet holding glucose in a gas phase is not recycled as an inlet (no gas-phase enthalpy model for it); '
+               'an InfeasibleRegion of mix_and_split_with_moisture_content ends the history without a judgement (whether a refusal is warranted is judged by the single-call cases); a MultiStream outlet of phase_split may file a liquid phase under its own liquid label (l / L)',
                "material_balance(balance='composition') is not judged: it is an iteration to a loose tolerance on compositions, not the statement's 'inlets minus outlets vanish'"]
 IDS = ('Water', 'Ethanol', 'Octanol', 'Methanol', 'O2', 'Glucose')
 
@@ -41,7 +47,15 @@ def required(tier):
             # phase_fraction and the strict cases, the whole-outlet K check must see single-listed-chemical cases, phase_split must compare against the given rows
             'vle:judged/VP', 'vle:judged/VP/edge', 'vle:judged/TP', 'vle:judged/TP/far', 'vle:judged/VT', 'vle:judged/QP', 'vle:judged/x-or-y', 'lle:judged/two-liquid',
             'phase_fraction:rr-reference', 'partition:rr-reference/strict', 'partition:K-whole-outlet/well-conditioned', 'partition:K-whole-outlet/one-listed',
-            'phase_split:feed-unchanged', 'moisture:judged', 'moisture:judged/mixmoist', 'moisture:refusal-warranted']
+            'phase_split:feed-unchanged', 'moisture:judged', 'moisture:judged/mixmoist', 'moisture:refusal-warranted',
+            # call histories on reused outlets (floors: about a quarter of what a quick run reaches)
+            'history:mix_and_split>=800', 'history:mix_and_split/multistream-outlets>=400', 'history:mix_and_split/reused-outlets-holding-content>=500', 'history:mix/empty-phase-inlet>=400',
+            'history:mix/outlet-holds-phase-absent-from-inlets/feed-non-empty>=300', 'history:mix/flashed-inlet>=100', 'history:top-among-inlets>=100', 'history:bottom-among-inlets>=100',
+            'history:mixmoist/judged>=150', 'history:mixmoist/target-judged>=100', 'history:mixmoist/multistream-outlets>=100',
+            'history:phase_split>=300', 'history:phase_split/multistream-outlets>=150', 'history:phase_split/reused-outlets-holding-content>=200', 'history:phase_split/empty-phase>=100',
+            'history:phase_split/feed-imol>=8', 'history:phase_split/feed-empty>=5', 'history:phase_split/feed-copy_like>=8', 'history:phase_split/feed-proxy>=8', 'history:phase_split/feed-rephase>=8',
+            'history:partition/reused-outlets-holding-content>=100', 'history:partition/non-liquid-outlet>=40', 'history:partition/K-ratio>=40',
+            'history:vle/multistream-outlets>=60', 'history:vle/reused-outlets-holding-content>=80']
 
 
 def arr(s): return s.mol.to_array() if hasattr(s.mol, 'to_array') else np.asarray(s.mol, float)
@@ -201,6 +215,14 @@ def run_case(case, rec):
     ids = th.chemicals.IDs
     MW = th.chemicals.MW
     t = case['t']
+    if t == 'history':
+        with warnings.catch_warnings():
+            warnings.simplefilter('ignore')
+            try:
+                run_history(case, rec, th, ids)
+            except Exception as e:
+                rec.exception('history', e, what=f'history of helper calls on reused outlets raised {type(e).__name__}: {str(e)[:160]}')
+        return
     stale = case['stale']
     def outlet(k, phase='l'):
         return mk(th, case['stale_flows'][k] if stale else [0.0] * len(ids), phase)
@@ -585,6 +607,310 @@ def run_case(case, rec):
             rec.exception(t, e, what=f'{t} ({tag}) raised {type(e).__name__}: {str(e)[:160]}')
 
 
+# ---------------------------------------------------------------------------
+# call histories on reused outlets
+#
+# The same two outlet objects are handed to a sequence of 2-4 helper calls (as the outlets of a unit are on every run of a flowsheet), starting fresh, as single-phase
+# streams holding content (liquid / gas) or as MultiStreams holding content in several phases. Inlets are liquid / gas / solid streams, MultiStreams (one of whose phases
+# may hold nothing), streams flashed with Stream.vle (subcooled: empty vapour phase; superheated: empty liquid phase), and the outlets themselves (recycle). Every call is
+# judged on its own against what the harness put in: the statement's balance / sign / target clauses do not depend on what the outlets held before the call.
+
+N_HISTORY = {'quick': 600, 'thorough': 6000}
+G_ = IDS.index('Glucose')
+MW_APPROX = (18.02, 46.07, 130.23, 32.04, 32.0, 180.16)
+
+
+def gen_rows(rng, kind, pzero=0.35):
+    rows = []
+    for ph in kind:
+        row = gflows(rng, len(IDS), pzero)
+        if ph == 'g': row[G_] = 0.0                                  # no gas-phase enthalpy model for the solid-reference chemical
+        rows.append(row)
+    return rows
+
+
+def gen_stream_spec(rng, kinds, weights, pempty_phase=0.45):
+    k = rng.choices(kinds, weights)[0]
+    if k == 'fresh': return {'k': 'fresh'}
+    if k == 'flash':
+        u = rng.random()
+        spec = {'T': 300., 'P': 101325.} if u < 0.45 else {'T': 400., 'P': 101325.} if u < 0.65 else {'V': round(rng.uniform(0.1, 0.9), 3), 'P': 101325.}
+        return {'k': 'flash', 'flows': [round(10 ** rng.uniform(0, 2), 3), round(10 ** rng.uniform(0, 2), 3), 0.0, rng.choice([0.0, round(10 ** rng.uniform(-1, 2), 3)]), 0.0, 0.0], 'spec': spec}
+    rows = gen_rows(rng, k)
+    if len(k) > 1:
+        u = rng.random()
+        if u < pempty_phase: rows[rng.randrange(len(k))] = [0.0] * len(IDS)          # one phase of the MultiStream holds nothing
+        elif u < pempty_phase + 0.05: rows = [[0.0] * len(IDS) for _ in k]
+    elif rng.random() < 0.05: rows = [[0.0] * len(IDS)]
+    return {'k': k, 'rows': rows}
+
+
+def gen_history(rng):
+    n = len(IDS)
+    c = {'t': 'history'}
+    c['outs'] = [gen_stream_spec(rng, ['fresh', 'l', 'g', 'gl', 'lL', 'gls', 'Lgl'], [30, 18, 12, 25, 5, 5, 5], 0.3) for _ in range(2)]
+    c['pk'] = rng.choice(['gl', 'gl', 'lL', 'ls'])                       # phases of the feed object that lives through the history (phase_split)
+    ikinds = ['l', 'g', 's', 'gl', 'lL', 'gls', 'flash']; iw = [38, 10, 5, 27, 6, 7, 7]
+    c['calls'] = calls = []
+    # what the history is mostly made of: mixing / splitting, phase splits of one living feed object, or any helper in any order
+    opw = rng.choice([[70, 20, 4, 3, 3], [70, 20, 4, 3, 3], [20, 5, 65, 5, 5], [35, 14, 16, 22, 13], [35, 14, 16, 22, 13]])
+    for _ in range(rng.randrange(2, 5)):
+        op = rng.choices(['mix_and_split', 'mixmoist', 'phase_split', 'partition', 'vle'], opw)[0]
+        call = {'op': op}
+        if op in ('mix_and_split', 'mixmoist'):
+            call['ins'] = [gen_stream_spec(rng, ikinds, iw) for _ in range(rng.randrange(1, 4))]
+            call['split'] = rng.choice([round(rng.random(), 4), 0.0, 1.0]) if rng.random() < 0.4 else [rng.choice([0.0, 1.0, round(rng.random(), 4)]) for _ in range(n)]
+            call['top_in'] = rng.random() < 0.12; call['bot_in'] = rng.random() < 0.12       # an outlet (with what it holds) is also the last inlet (recycle)
+            if op == 'mixmoist':
+                call['mc'] = round(rng.uniform(0.02, 0.95), 4); call['mID'] = rng.choice([None, None, 'Ethanol', 'Methanol'])
+                if rng.random() < 0.7:
+                    # a liquid inlet rich in the moisture chemical, at most half of which goes to the retentate: the permeate can usually give what the target asks for
+                    # (bound of the dry mass from approximate molar masses; the call is judged by what it does, not by this estimate)
+                    w = IDS.index(call['mID'] or 'Water')
+                    call['mc'] = round(rng.uniform(0.02, 0.8), 4)
+                    dry = sum(v * m_ for sp_ in call['ins'] for row in sp_.get('rows', [sp_.get('flows')]) for v, m_ in zip(row, MW_APPROX))
+                    if isinstance(call['split'], list): call['split'][w] = round(rng.uniform(0.0, 0.5), 4)
+                    else: call['split'] = round(min(call['split'], rng.uniform(0.0, 0.5)), 4)
+                    need = dry * call['mc'] / (1 - call['mc']) / MW_APPROX[w]
+                    row = [0.0] * n; row[w] = round((need + 1.0) * rng.uniform(2.5, 6), 4)
+                    call['ins'].append({'k': 'l', 'rows': [row]})
+        elif op == 'phase_split':
+            call['src'] = rng.choice(['fresh', 'persistent', 'persistent'])
+            call['k'] = rng.choice(['gl', 'lL', 'ls', 'gs'])
+            call['rows'] = gen_rows(rng, 'gl')                           # two rows, no glucose in the first (it may be a gas phase)
+            if rng.random() < 0.35: call['rows'][rng.randrange(2)] = [0.0] * n
+            call['how'] = rng.choice(['imol', 'empty', 'copy_like', 'proxy', 'rephase'])
+        elif op == 'partition':
+            call['feed'] = gflows(rng, n, pzero=0.15)
+            k = rng.randrange(1, 5)
+            call['ids'] = rng.sample(range(n), k)
+            rest = [i for i in range(n) if i not in call['ids']]
+            call['K'] = [round(10 ** rng.uniform(-3, 3), 5) for _ in call['ids']]
+            call['top'] = [i for i in rest if rng.random() < 0.25]
+            call['bottom'] = [i for i in rest if i not in call['top'] and rng.random() < 0.25]
+        elif op == 'vle':
+            call['feed'] = [round(10 ** rng.uniform(0, 2), 3), round(10 ** rng.uniform(0, 2), 3), 0.0, round(10 ** rng.uniform(-1, 2), 3) if rng.random() < 0.5 else 0.0, 0.0, 0.0]
+            call['spec'] = rng.choice([{'V': round(rng.uniform(0.1, 0.9), 3), 'P': 101325.}, {'T': round(rng.uniform(350, 370), 2), 'P': 101325.}])
+        calls.append(call)
+    return c
+
+
+def run_history(case, rec, th, ids):
+    n = len(ids); MWa = np.asarray(th.chemicals.MW, float)
+    isms = lambda s_: isinstance(s_, tmo.MultiStream)
+
+    def build(spec):
+        """the stream and the per-chemical flows the harness put into it (the reference: not read back from the object)"""
+        k = spec['k']
+        if k == 'fresh': return mk(th, [0.0] * n), np.zeros(n)
+        if k == 'flash':
+            s_ = mk(th, spec['flows'], 'l', T=340.)
+            s_.vle(**spec['spec'])                                         # a MultiStream now; far from saturation one of its phases holds nothing
+            return s_, np.array(spec['flows'], float)
+        if len(k) == 1: return mk(th, spec['rows'][0], k), np.array(spec['rows'][0], float)
+        m_ = tmo.MultiStream(None, phases=tuple(k), thermo=th)
+        for ph_, row in zip(k, spec['rows']):
+            for i, v in zip(ids, row):
+                if v: m_.imol[ph_, i] = v
+        return m_, np.array(spec['rows'], float).sum(0)
+
+    def phase_rows(s_):
+        """{phase: flows} held by the object now"""
+        if isms(s_): return {p_: np.asarray(s_.imol[p_].to_array(), float) for p_ in s_.phases}
+        return {s_.phase: arr(s_).copy()}
+
+    def negative_rows(s_):
+        return [float(v) for r_ in phase_rows(s_).values() for v in r_ if v < 0]
+
+    top, bot = build(case['outs'][0])[0], build(case['outs'][1])[0]
+    for o_ in case['outs']:
+        if len(o_['k']) > 1: rec.hit('history:outlet-initially-multistream')
+    pfeed = None
+    nontrivial = False
+    for ci, call in enumerate(case['calls']):
+        op = call['op']
+        v0 = sum(rec.viol_counts.values())
+        held = bool(arr(top).any() or arr(bot).any())
+        otag = ('reused' if ci else 'initial') + ('/multistream-outlets' if (isms(top) or isms(bot)) else '/stream-outlets') + ('/holding-content' if held else '/empty')
+        etag = 'history/' + ('multistream-outlets' if (isms(top) or isms(bot)) else 'stream-outlets')      # exceptions: keyed by helper and outlet kind only
+        rec.hit(f'history:{op}')
+        if ci and held: rec.hit(f'history:{op}/reused-outlets-holding-content')
+        if isms(top) or isms(bot): rec.hit(f'history:{op}/multistream-outlets')
+        if op in ('mix_and_split', 'mixmoist'):
+            built = [build(sp_) for sp_ in call['ins']]
+            ins = [b_[0] for b_ in built]; before = [b_[1] for b_ in built]
+            rtag = ''
+            # an outlet that an earlier helper left holding glucose in a gas phase is not recycled: there is no gas-phase enthalpy model for the solid-reference
+            # chemical (the energy balance of the mixing is outside the model range; the helpers that only route material take such outlets as they are)
+            no_model = lambda o_: bool(phase_rows(o_).get('g', np.zeros(n))[G_])
+            if call.get('top_in') and no_model(top): rec.hit('history:recycle-skipped/glucose-in-gas')
+            elif call.get('top_in'): ins.append(top); before.append(arr(top).copy()); rtag += '/top-among-inlets'; rec.hit('history:top-among-inlets')
+            if call.get('bot_in') and no_model(bot): rec.hit('history:recycle-skipped/glucose-in-gas')
+            elif call.get('bot_in'): ins.append(bot); before.append(arr(bot).copy()); rtag += '/bottom-among-inlets'; rec.hit('history:bottom-among-inlets')
+            fed = {}                                                        # phase -> some inlet holds material in it
+            empty_phase_in = False
+            for i_ in ins:
+                pr = phase_rows(i_)
+                for p_, r_ in pr.items(): fed[p_] = fed.get(p_, False) or bool(r_.any())
+                if isms(i_) and any(r_.any() for r_ in pr.values()) and not all(r_.any() for r_ in pr.values()): empty_phase_in = True
+            itag = 'empty-phase-inlet' if empty_phase_in else 'multistream-inlet' if any(isms(i_) for i_ in ins) else 'stream-inlets'
+            rec.hit(f'history:mix/{itag}')
+            if any(sp_['k'] == 'flash' for sp_ in call['ins']): rec.hit('history:mix/flashed-inlet')
+            # the class a per-phase shortcut would get wrong: an outlet holds material in a phase in which the inlets bring nothing
+            if any(r_.any() and not fed.get(p_, False) for o_ in (top, bot) for p_, r_ in phase_rows(o_).items()):
+                etag += '/outlet-holds-phase-absent-from-inlets'
+                rec.hit('history:mix/outlet-holds-phase-absent-from-inlets')
+                if any(fed.values()): rec.hit('history:mix/outlet-holds-phase-absent-from-inlets/feed-non-empty')
+            split = np.array(call['split']) if isinstance(call['split'], list) else call['split']
+            tag = f'history/{otag}/{itag}{rtag}'
+            total = sum(before)
+            if op == 'mix_and_split':
+                clause = 'mix_and_split'
+                try:
+                    sep.mix_and_split(ins, top, bot, split)
+                except Exception as e:
+                    if exc_key(e).endswith('@?'): raise
+                    rec.exception(f'{clause}/{etag}', e, what=f'mix_and_split (call {ci + 1} of a history on the same outlets: {otag}, {itag}) raised {type(e).__name__}: {str(e)[:120]}'); return
+            else:
+                clause = 'moisture'
+                mID = call.get('mID'); W = mID or 'Water'
+                try:
+                    sep.mix_and_split_with_moisture_content(ins, top, bot, split, call['mc'], **({'ID': mID} if mID else {}))
+                except Exception as e:
+                    if exc_key(e).endswith('@?'): raise
+                    if not isinstance(e, InfeasibleRegion):
+                        rec.exception(f'{clause}/{etag}', e, what=f'mix_and_split_with_moisture_content (call {ci + 1} of a history on the same outlets: {otag}, {itag}) raised {type(e).__name__}: {str(e)[:120]}'); return
+                    # documented refusal (not enough moisture / moisture outside the liquid phase); whether it is warranted is judged by the single-call cases.
+                    # The outlets are left in the state of the refusal: the history ends here
+                    rec.hit('history:mixmoist/refused')
+                    rec.refuse('history: mix_and_split_with_moisture_content raised InfeasibleRegion (documented; not judged, the history ends)'); return
+                rec.hit('history:mixmoist/judged')
+            balance(rec, clause, tag, before, [arr(top), arr(bot)], f'{op} (call {ci + 1} of a history on the same outlets)')
+            neg = negative_rows(top) + negative_rows(bot)
+            rec.check(not neg, clause, f'negative-phase-flow/{tag}', f'{op} (call {ci + 1} of a history on the same outlets): negative phase flows {neg[:4]} without an infeasibility report')
+            if op == 'mix_and_split':
+                exp_top = total * split
+                rec.check(np.allclose(arr(top), exp_top, rtol=1e-12, atol=0), clause, f'top/{tag}',
+                          f'mix_and_split (call {ci + 1} of a history on the same outlets): top {arr(top).tolist()} != split * sum(ins) {np.asarray(exp_top).tolist()} (bottom {arr(bot).tolist()})')
+            else:
+                # a normal return under the default strict setting means the permeate could give the moisture: the requested fraction must have been reached
+                iW = ids.index(W)
+                r0 = total * split
+                dry0 = float((r0 * MWa).sum() - r0[iW] * MWa[iW])
+                if dry0 > 1e-6 * max(float((total * MWa).sum()), 1e-300):
+                    Fm = top.F_mass
+                    got = float(np.sum(top.imass[W])) / Fm if Fm else float('nan')
+                    rec.hit('history:mixmoist/target-judged')
+                    rec.check(abs(got - call['mc']) <= 1e-9, clause, f'target/{tag}', f'mix_and_split_with_moisture_content (call {ci + 1} of a history on the same outlets): retentate moisture fraction {got!r} != requested {call["mc"]}',
+                              residual=abs(got - call['mc']) if got == got else None)
+            if (total > 0).sum() >= 2 and arr(top).any() and arr(bot).any(): nontrivial = True
+        elif op == 'phase_split':
+            src = call['src']
+            k = case['pk'] if src == 'persistent' else call['k']
+            given = {p_: np.array(r_, float) for p_, r_ in zip(k, call['rows'])}
+            if src == 'fresh' or pfeed is None:
+                feed = build({'k': k, 'rows': call['rows']})[0]
+                how = 'new'
+                if src == 'persistent': pfeed = feed
+            else:
+                # the feed object of an earlier call, holding new flows: written through the indexer, after emptying, copied from another stream, through
+                # its (cached) phase proxies, or after its phases were changed and changed back
+                feed = pfeed; how = call['how']
+                if how == 'rephase':
+                    feed.phases = tuple(k) + (('s',) if 's' not in k else ('g',))
+                    feed.phases = tuple(k)
+                if how in ('imol', 'rephase'):
+                    for p_ in k:
+                        for i, v in zip(ids, given[p_]): feed.imol[p_, i] = v
+                elif how == 'empty':
+                    feed.empty()
+                    for p_ in k:
+                        for i, v in zip(ids, given[p_]):
+                            if v: feed.imol[p_, i] = v
+                elif how == 'copy_like':
+                    feed.copy_like(build({'k': k, 'rows': call['rows']})[0])
+                elif how == 'proxy':
+                    for p_ in k: feed[p_].mol[:] = given[p_]
+            rec.hit(f'history:phase_split/feed-{how}')
+            phases0 = tuple(feed.phases)                                       # outlets are allocated in this (alphabetical) order
+            if set(phases0) != set(k):
+                rec.check(False, 'phase_split', f'history/feed-phases/{how}', f'the feed was given phases {tuple(k)} but reports {phases0}'); return
+            if any(not r_.any() for r_ in given.values()): rec.hit('history:phase_split/empty-phase')
+            outs = [top, bot]
+            tag = f'history/{otag}/feed-{how}'
+            try:
+                sep.phase_split(feed, outs)
+            except Exception as e:
+                if exc_key(e).endswith('@?'): raise
+                rec.exception(f'phase_split/{etag}', e, what=f'phase_split (call {ci + 1} of a history on the same outlets: {otag}) raised {type(e).__name__}: {str(e)[:120]}'); return
+            for p_, o_ in zip(phases0, outs):
+                pr = phase_rows(o_)
+                if isms(o_):
+                    # a MultiStream outlet with one liquid phase files either liquid label ('l' / 'L') under the one it has: the material of the feed's phase must be
+                    # all the outlet holds, in its phase(s) of that kind
+                    same = [r_ for q_, r_ in pr.items() if q_.lower() == p_.lower()]
+                    routed = bool(same) and np.array_equal(sum(same), given[p_]) and not any(r_.any() for q_, r_ in pr.items() if q_.lower() != p_.lower())
+                else:
+                    routed = np.array_equal(pr[o_.phase], given[p_]) and o_.phase == p_
+                rec.check(routed, 'phase_split', tag, f'phase_split (call {ci + 1} of a history on the same outlets): the outlet for phase {p_} holds {{phase: flows}} = { {q_: r_.tolist() for q_, r_ in pr.items()} } '
+                          f'but the feed held {given[p_].tolist()} in that phase')
+            fr = phase_rows(feed)
+            rec.check(tuple(feed.phases) == phases0 and all(np.array_equal(fr[p_], given[p_]) for p_ in phases0), 'phase_split', f'feed-changed/history/feed-{how}',
+                      f'phase_split changed the feed: phases {tuple(feed.phases)}, rows { {q_: r_.tolist() for q_, r_ in fr.items()} } (given { {q_: r_.tolist() for q_, r_ in given.items()} })')
+            nontrivial = True
+        elif op == 'partition':
+            if isms(top) or isms(bot):
+                # partition writes through .mol / .imol[IDs] of its outlets: single-phase streams (its documented use); not called on MultiStream outlets
+                rec.hit('history:partition/skipped-multistream-outlets'); continue
+            fb = np.array(call['feed'], float)
+            L = call['ids'] + call['top'] + call['bottom']
+            if not fb[L].sum():
+                rec.hit('history:partition/skipped-no-listed-material'); continue
+            feed = mk(th, call['feed'])
+            IDs = tuple(ids[i] for i in call['ids']); K = np.array(call['K'])
+            topc = tuple(ids[i] for i in call['top']) or None; botc = tuple(ids[i] for i in call['bottom']) or None
+            tag = f'history/{otag}' + ('/forced' if (topc or botc) else '')
+            try:
+                phi = sep.partition(feed, top, bot, IDs, K, None, topc, botc)
+            except Exception as e:
+                if exc_key(e).endswith('@?'): raise
+                rec.exception(f'partition/{etag}', e, what=f'partition (call {ci + 1} of a history on the same outlets: {otag}) raised {type(e).__name__}: {str(e)[:120]}'); return
+            if top.phase != 'l' or bot.phase != 'l': rec.hit('history:partition/non-liquid-outlet')
+            balance(rec, 'partition', tag, [fb], [arr(top), arr(bot)], f'partition (call {ci + 1} of a history on the same outlets)')
+            yt, xb = arr(top), arr(bot)
+            for i in call['top']:
+                rec.check(xb[i] == 0 and yt[i] == fb[i], 'partition', f'forced-top/history/{otag}', f'forced top chemical {ids[i]}: top {yt[i]} bottom {xb[i]} feed {fb[i]}')
+            for i in call['bottom']:
+                rec.check(yt[i] == 0 and xb[i] == fb[i], 'partition', f'forced-bottom/history/{otag}', f'forced bottom chemical {ids[i]}: top {yt[i]} bottom {xb[i]} feed {fb[i]}')
+            for i in range(n):
+                if i not in L: rec.check(xb[i] == 0, 'partition', f'unlisted-in-bottom/history/{otag}', f'chemical {ids[i]} is in no list but the bottom outlet holds {xb[i]} of it (feed {fb[i]})')
+            idx = [i for i in call['ids'] if yt[i] > 0 and xb[i] > 0]
+            if len(idx) >= 2 and 0 < phi < 1:
+                y = yt[idx] / yt[call['ids']].sum(); x = xb[idx] / xb[call['ids']].sum()
+                Kd = {i: k_ for i, k_ in zip(call['ids'], K)}
+                r = np.array([(y[m] / x[m]) / Kd[i] for m, i in enumerate(idx)])
+                spread = float(r.max() / r.min() - 1)
+                rec.hit('history:partition/K-ratio')
+                rec.check(spread <= 1e-6, 'partition', f'K-ratio/{tag}', f'(y/x)/K not one common factor: {r.tolist()} (phi={phi})', residual=spread)
+                nontrivial = True
+        elif op == 'vle':
+            fb = np.array(call['feed'], float)
+            feed = mk(th, call['feed'], T=340.)
+            tag = f'history/{otag}'
+            try:
+                sep.vle(feed, top, bot, **call['spec'])
+            except Exception as e:
+                if exc_key(e).endswith('@?'): raise
+                rec.exception(f'vle-wrapper/{etag}', e, what=f'separations.vle({call["spec"]}) (call {ci + 1} of a history on the same outlets: {otag}) raised {type(e).__name__}: {str(e)[:120]}'); return
+            balance(rec, 'vle-wrapper', tag, [fb], [arr(top), arr(bot)], f'separations.vle (call {ci + 1} of a history on the same outlets)')
+            rec.check(not isms(top) and not isms(bot) and top.phase == 'g' and bot.phase == 'l' and top.T == bot.T and top.P == bot.P, 'vle-wrapper', f'routing/{tag}',
+                      f'vapour outlet {type(top).__name__} phase {top.phase}, liquid outlet {type(bot).__name__} phase {bot.phase}, T {top.T}/{bot.T}')
+            rec.check(np.array_equal(arr(feed), fb), 'vle-wrapper', 'feed-changed/history', 'separations.vle changed the feed')
+            if arr(top).any() and arr(bot).any(): nontrivial = True
+        if sum(rec.viol_counts.values()) > v0: return                       # the outlets are in a wrong state: later calls of this history would only repeat it
+    if nontrivial: rec.mark_nontrivial(case_hash(case))
+
+
 def replay(case, rec):
     run_case(case, rec)
 
@@ -598,3 +924,11 @@ def run(rec, rng, tier, shard, nshards):
         except Exception as e:
             rec.exception('harness', e, what=f'harness error: {type(e).__name__}: {e}')
         if i % 301 == 0: rec.sample(case)
+    # call histories on reused outlets: generated after (and in addition to) the single-call cases, so those stay exactly what they were for a given seed
+    for i in range(N_HISTORY[tier]):
+        case = gen_history(rng)
+        try:
+            run_case(case, rec)
+        except Exception as e:
+            rec.exception('harness', e, what=f'harness error: {type(e).__name__}: {e}')
+        if i % 299 == 7: rec.sample(case)
